@@ -104,13 +104,23 @@ package plugin
 //@ pred othersSame(r *runningStep) = true
 //
 // ---- terminal transitions ----
+// ---- engine-generated stage outputs and their declared schemas (C08) ----
+// The data model only understands serialised values (maps, lists, scalars). Each output the provider
+// generates itself must be a map with exactly the fields of the schema it declares for that output
+// (internal/step/shared_schema.go, Lifecycle() in provider.go).
+//@ pred mapWithOnly1(o any, k1 string) = typeis(o, map[any]any) && (forall k any :: indom(o.(map[any]any), k) <==> k == any(k1))
+//@ pred mapWithOnly2(o any, k1 string, k2 string) = typeis(o, map[any]any) && (forall k any :: indom(o.(map[any]any), k) <==> (k == any(k1) || k == any(k2)))
+//
 //@ func (*runningStep).deployFailed
+//@   site call completeStep#1 assert [deploy-failed-output-is-a-serialised-object-with-the-declared-field] mapWithOnly1(output, "error") && typeis(output.(map[any]any)[any("error")], string)
 //@   opt goroutine run
 //@   requires wfstep(r) && nolocks() && err != nil && r.currentStage == StageIDDeploy && fresh0(r)
 //@   modifies r.currentStage, r.state, ghost reported, ghost completions
 //@   ensures ended(r)
 //
 //@ func (*runningStep).transitionToDisabled
+//@   site call transitionStageWithOutput#1 assert [enabling-output-matches-its-declared-schema] mapWithOnly1(enabledOutput, "enabled") && enabledOutput.(map[any]any)[any("enabled")] == any(false)
+//@   site call completeStep#1 assert [disabled-output-matches-its-declared-schema] mapWithOnly1(disabledOutput, "message") && typeis(disabledOutput.(map[any]any)[any("message")], string)
 //@   opt goroutine run
 //@   requires wfstep(r) && nolocks() && r.currentStage == StageIDEnabling && completions(step.RunningStep(r)) == 0
 //@   requires reported(step.RunningStep(r), "deploy") == 1 && (forall g string :: g != "deploy" ==> reported(step.RunningStep(r), g) == 0)
@@ -118,6 +128,7 @@ package plugin
 //@   ensures ended(r) && reported(step.RunningStep(r), "disabled") == 1
 //
 //@ func (*runningStep).closedEarly
+//@   site call completeStep#1 assert [closed-output-matches-its-declared-schema] mapWithOnly2(closedOutput, "cancelled", "close_requested") && typeis(closedOutput.(map[any]any)[any("cancelled")], bool) && typeis(closedOutput.(map[any]any)[any("close_requested")], bool)
 //@   opt goroutine run
 //@   requires wfstep(r) && nolocks() && completions(step.RunningStep(r)) == 0 && stageIdx(string(stageToMarkUnresolvable)) >= 0
 //@   requires r.currentStage != StageIDClosed && reported(step.RunningStep(r), "closed") == 0
@@ -133,6 +144,7 @@ package plugin
 //@       reported(step.RunningStep(r), g) == old(reported(step.RunningStep(r), g))
 //
 //@ func (*runningStep).startFailed
+//@   site call completeStep#1 assert [crashed-output-is-a-serialised-object-with-the-declared-field] mapWithOnly1(output, "output") && typeis(output.(map[any]any)[any("output")], string)
 //@   opt goroutine run
 //@   requires wfstep(r) && nolocks() && err != nil && r.currentStage == StageIDStarting && completions(step.RunningStep(r)) == 0
 //@   requires reported(step.RunningStep(r), "deploy") == 1 && reported(step.RunningStep(r), "enabling") == 1 && reported(step.RunningStep(r), "disabled") == 2
@@ -141,6 +153,7 @@ package plugin
 //@   ensures ended(r)
 //
 //@ func (*runningStep).runFailed
+//@   site call completeStep#1 assert [crashed-output-is-a-serialised-object-with-the-declared-field] mapWithOnly1(output, "output") && typeis(output.(map[any]any)[any("output")], string)
 //@   opt goroutine run
 //@   requires wfstep(r) && nolocks() && err != nil && r.currentStage == StageIDRunning && completions(step.RunningStep(r)) == 0
 //@   requires reported(step.RunningStep(r), "deploy") == 1 && reported(step.RunningStep(r), "enabling") == 1 && reported(step.RunningStep(r), "disabled") == 2 && reported(step.RunningStep(r), "starting") == 1
@@ -195,6 +208,7 @@ package plugin
 //@   ensures !result1 && !result ==> afterDeploy(r)
 //
 //@ func (*runningStep).startStage
+//@   site call transitionStageWithOutput#1 assert [enabling-output-matches-its-declared-schema] mapWithOnly1(enabledOutput, "enabled") && enabledOutput.(map[any]any)[any("enabled")] == any(true)
 //@   opt goroutine run
 //@   requires wfstep(r) && nolocks() && container != nil && r.currentStage == StageIDEnabling && afterEnabled(r)
 //@   modifies r.currentStage, r.state, r.atpClient, ghost reported
@@ -207,6 +221,7 @@ package plugin
 //@   requires wfstep(r) && nolocks()
 //
 //@ func (*runningStep).runStage
+//@   site call transitionStageWithOutput#1 assert [started-output-is-the-declared-empty-object] typeis(startedOutput, map[any]any) && (forall k any :: !indom(startedOutput.(map[any]any), k))
 //@   opt goroutine run
 //@   requires wfstep(r) && nolocks() && r.currentStage == StageIDStarting && afterStarting(r)
 //@   modifies r.currentStage, r.state, r.container, ghost reported, ghost completions, ghost openconn
